@@ -1,7 +1,8 @@
 (* C14 — lemmas and proofs about coq/C14/Model.v *)
 From Coq Require Import List NArith ZArith Bool Lia Arith.
 From Coq Require Import ZifyBool ZifyNat ZifyN.
-From LTV Require Import Common.Bytes Params_gen.
+From LTV Require Import Common.Bytes.
+From LTV.C14 Require Import ParamsGen.
 From LTV.C07 Require Import Model.
 From LTV.C14 Require Import Model.
 Import ListNotations.
@@ -120,9 +121,9 @@ Proof.
     assert (Hbuf : pre ++ rest = (pre ++ A ++ P) ++ R).
     { rewrite Hd at 1. rewrite <- !app_assoc. reflexivity. }
     assert (Hlen : blen (pre ++ A ++ P) = blen pre + (if v6 then 18 else 6)).
-    { rewrite !blen_app. unfold blen at 2 3. rewrite HA, HP. destruct v6; cbn; lia. }
+    { rewrite !blen_app. unfold blen at 2 3. rewrite HA, HP. destruct v6; cbn [rsz_of]; lia. }
     assert (HR : blen rest = N.of_nat (rsz_of v6) + blen R).
-    { rewrite Hd at 1. rewrite !blen_app. unfold blen at 1 2. rewrite HA, HP. destruct v6; cbn; lia. }
+    { rewrite Hd at 1. rewrite !blen_app. unfold blen at 1 2. rewrite HA, HP. destruct v6; cbn [rsz_of]; lia. }
     assert (Hend : endp = blen (pre ++ A ++ P) + (blen R - blen R mod N.of_nat (rsz_of v6))).
     { unfold endp. rewrite Hlen, HR. destruct v6; cbn [rsz_of]; lia. }
     rewrite Hend, <- Hlen, Hbuf.
@@ -193,3 +194,472 @@ Lemma parsers_no_fault : forall buf,
   parse_compact buf <> PFault /\ parse_compact buf <> POutOfFuel /\
   parse_compact6 buf <> PFault /\ parse_compact6 buf <> POutOfFuel.
 Proof. intro buf. rewrite compact_exact, compact6_exact. repeat split; discriminate. Qed.
+
+(* ------------------------------------------------------------------ dictionary form *)
+
+Definition opt_list (A : Type) (o : option A) : list A := match o with Some a => [a] | None => [] end.
+
+(* order-preserving: exactly the accepted entries, in the order of the list *)
+Lemma normal_exact : forall l, parse_normal l = flat_map (fun v => opt_list _ (normal_entry v)) l.
+Proof.
+  induction l as [|v l IH]; [reflexivity|].
+  cbn [parse_normal flat_map]. destruct (normal_entry v); cbn [opt_list app]; rewrite IH; reflexivity.
+Qed.
+
+Lemma normal_in : forall l a, In a (parse_normal l) <-> exists v, In v l /\ normal_entry v = Some a.
+Proof.
+  intros l a. rewrite normal_exact, in_flat_map. split; intros (v & Hv & H); exists v; split; try assumption.
+  - destruct (normal_entry v); cbn in H; [destruct H as [->|[]]; reflexivity | destruct H].
+  - rewrite H. left. reflexivity.
+Qed.
+
+Lemma cstr_id : forall s, existsb (fun c => c =? 0) s = false -> cstr s = s.
+Proof.
+  induction s as [|c s IH]; [reflexivity|]. cbn [existsb cstr]. intro H.
+  apply orb_false_iff in H. destruct H as [H1 H2]. rewrite H1, IH by exact H2. reflexivity.
+Qed.
+
+(* what an accepted entry looks like: a dictionary with string "ip" and integer "port",
+   0 < port < 65536, the ip text has no NUL byte, parses as IPv4 or else IPv6, and is not the unspecified address *)
+Lemma normal_entry_spec : forall v a, normal_entry v = Some a <->
+  exists m ip port, v = VMap m /\ map_lookup key_ip m = Some (VStr ip) /\ map_lookup key_port m = Some (VInt port) /\
+    (0 < port < 65536)%Z /\ existsb (fun c => c =? 0) ip = false /\
+    ((exists x, pton4 ip = Some x /\ x <> 0 /\ a = A4 x (Z.to_N port)) \/
+     (pton4 ip = None /\ exists x, pton6 ip = Some x /\ x <> 0 /\ a = A6 x (Z.to_N port))).
+Proof.
+  intros v a. split.
+  - destruct v as [z|s|l|m]; cbn [normal_entry]; try discriminate.
+    destruct (map_lookup key_ip m) as [[z|ip|l|m']|] eqn:Hi; try discriminate.
+    destruct (map_lookup key_port m) as [[port|s|l|m']|] eqn:Hq; try discriminate.
+    unfold port_limit.
+    destruct ((port <=? 0)%Z || (65536 <=? port)%Z) eqn:Hp; [discriminate|].
+    destruct (existsb (fun c => c =? 0) ip) eqn:Hn; [discriminate|].
+    rewrite (cstr_id ip Hn).
+    intro H. exists m, ip, port.
+    split; [reflexivity|]. split; [exact Hi|]. split; [exact Hq|]. split; [lia|]. split; [exact Hn|].
+    destruct (pton4 ip) as [x|] eqn:H4.
+    + destruct (x =? 0) eqn:Hx; [discriminate|]. left. exists x. repeat split; [lia|congruence].
+    + destruct (pton6 ip) as [x|] eqn:H6; [|discriminate].
+      destruct (x =? 0) eqn:Hx; [discriminate|]. right. split; [reflexivity|]. exists x. repeat split; [lia|congruence].
+  - intros (m & ip & port & -> & Hi & Hp & Hr & Hn & H). cbn [normal_entry]. rewrite Hi, Hp. unfold port_limit.
+    replace ((port <=? 0)%Z || (65536 <=? port)%Z) with false by lia.
+    rewrite Hn, (cstr_id ip Hn).
+    destruct H as [(x & H4 & Hx & ->)|(H4 & x & H6 & Hx & ->)].
+    + rewrite H4. replace (x =? 0) with false by lia. reflexivity.
+    + rewrite H4, H6. replace (x =? 0) with false by lia. reflexivity.
+Qed.
+
+Definition usable (a : addr) : Prop := addr_port a <> 0 /\ addr_unspecified a = false.
+
+Lemma normal_usable : forall l a, In a (parse_normal l) -> usable a /\ addr_port a < 65536.
+Proof.
+  intros l a H. apply normal_in in H. destruct H as (v & _ & H). apply normal_entry_spec in H.
+  destruct H as (m & ip & port & _ & _ & _ & Hr & _ & [(x & _ & Hx & ->)|(_ & x & _ & Hx & ->)]);
+    unfold usable, addr_unspecified; cbn [addr_port addr_ip]; repeat split; lia.
+Qed.
+
+(* ------------------------------------------------------------------ insert_available *)
+
+Lemma insert_unique_in : forall av x a, In a (insert_unique av x) -> In a av \/ a = x.
+Proof.
+  intros av x a. unfold insert_unique. destruct (existsb _ av); [auto|].
+  rewrite in_app_iff. cbn. intuition.
+Qed.
+
+Lemma insert_unique_len : forall av x, alen (insert_unique av x) <= alen av + 1.
+Proof.
+  intros av x. unfold insert_unique, alen. destruct (existsb _ av); [lia|]. rewrite app_length. cbn [length]. lia.
+Qed.
+
+Lemma is_any_unspecified : forall a, addr_is_any a = false -> addr_unspecified a = false.
+Proof.
+  intros [a p|a p]; unfold addr_is_any, addr_unspecified; cbn [addr_ip]; [auto|].
+  destruct (N.eqb_spec a 0) as [->|]; [|reflexivity].
+  cbn. auto.
+Qed.
+
+Section IA.
+  Variable skip : addr -> bool.
+
+  Lemma ia_loop_inv : forall (P : addr -> Prop) al av old maxsz ins,
+    (forall a, In a av -> P a) ->
+    (forall a, In a al -> addr_port a <> 0 -> addr_is_any a = false -> P a) ->
+    forall a, In a (fst (ia_loop skip al av old maxsz ins)) -> P a.
+  Proof.
+    intros P. induction al as [|x al IH]; intros av old maxsz ins Hav Hal a.
+    - cbn. apply Hav.
+    - cbn [ia_loop].
+      assert (Hal' : forall a, In a al -> addr_port a <> 0 -> addr_is_any a = false -> P a) by (intros; apply Hal; [right| |]; assumption).
+      destruct (negb (alen av <? maxsz)); [cbn; apply Hav|].
+      destruct (addr_port x =? 0) eqn:Hp; cbn [orb]; [apply IH; assumption|].
+      destruct (addr_is_any x) eqn:Hany; [apply IH; assumption|].
+      assert (Hins : forall a, In a (insert_unique av x) -> P a).
+      { intros b Hb. apply insert_unique_in in Hb. destruct Hb as [Hb| ->]; [apply Hav; assumption|].
+        apply Hal; [left; reflexivity|lia|exact Hany]. }
+      destruct (find_less old x) as [|e old1].
+      + destruct (skip x); apply IH; assumption.
+      + destruct (negb (addr_ltb_addr e x)); [apply IH; assumption|].
+        destruct (skip x); apply IH; assumption.
+  Qed.
+
+  Lemma ia_loop_cap : forall al av old maxsz ins,
+    alen av <= maxsz -> alen (fst (ia_loop skip al av old maxsz ins)) <= maxsz.
+  Proof.
+    induction al as [|x al IH]; intros av old maxsz ins H.
+    - cbn. exact H.
+    - cbn [ia_loop]. destruct (alen av <? maxsz) eqn:Hlt; cbn [negb]; [|cbn; exact H].
+      assert (Hins : alen (insert_unique av x) <= maxsz) by (pose proof (insert_unique_len av x); lia).
+      destruct ((addr_port x =? 0) || addr_is_any x); [apply IH; exact H|].
+      destruct (find_less old x) as [|e old1].
+      + destruct (skip x); apply IH; assumption.
+      + destruct (negb (addr_ltb_addr e x)); [apply IH; assumption|].
+        destruct (skip x); apply IH; assumption.
+  Qed.
+
+  (* nothing with port 0 or an unspecified address is ever retained, whatever the PeerInfo branch decides *)
+  Lemma retained_usable : forall av maxsz al,
+    (forall a, In a av -> usable a) ->
+    forall a, In a (fst (insert_available skip av maxsz al)) -> usable a.
+  Proof.
+    intros av maxsz al Hav a. unfold insert_available. destruct (maxsz <=? alen av); [cbn; apply Hav|].
+    apply ia_loop_inv; [exact Hav|]. intros b _ Hp Hany. split; [exact Hp|apply is_any_unspecified, Hany].
+  Qed.
+
+  (* nothing is invented: retained addresses were already there or are in the offered list *)
+  Lemma retained_from_input : forall av maxsz al a,
+    In a (fst (insert_available skip av maxsz al)) -> In a av \/ In a al.
+  Proof.
+    intros av maxsz al a. unfold insert_available. destruct (maxsz <=? alen av); [cbn; auto|].
+    apply ia_loop_inv with (P := fun a => In a av \/ In a al); auto.
+  Qed.
+
+  Lemma cap : forall av maxsz al,
+    alen (fst (insert_available skip av maxsz al)) <= N.max (alen av) maxsz.
+  Proof.
+    intros av maxsz al. unfold insert_available. destruct (maxsz <=? alen av) eqn:H; [cbn; lia|].
+    pose proof (ia_loop_cap al av av maxsz 0). lia.
+  Qed.
+
+  (* the "unneeded" branch of insert_available is dead code: find_if returns an element that satisfies
+     the very predicate whose negation is then tested *)
+  Lemma find_less_head : forall old x e r, find_less old x = e :: r -> addr_ltb_addr e x = true.
+  Proof.
+    induction old as [|y old IH]; intros x e r H; [discriminate|].
+    cbn [find_less] in H. destruct (addr_ltb_addr y x) eqn:Hy; [congruence|]. eapply IH; exact H.
+  Qed.
+End IA.
+
+(* the whole pipeline on a PeerList: invariant over every op list *)
+Definition pl_inv (maxsz : N) (st : pres (list addr * list N)) : Prop :=
+  match st with
+  | POk (av, _) => (forall a, In a av -> usable a) /\ alen av <= maxsz
+  | _ => True
+  end.
+
+Lemma pl_step_inv : forall maxsz st op, pl_inv maxsz st -> pl_inv maxsz (pl_step maxsz st op).
+Proof.
+  intros maxsz st op H. destruct st as [[av rets]| |]; cbn [pl_step]; try exact I.
+  destruct H as [Hp Hc].
+  assert (K : forall (parsed : pres (list addr)) (prep : list addr -> list addr),
+             pl_inv maxsz (match parsed with
+                           | POk l => let '(av', r) := insert_available no_skip av maxsz (prep l) in POk (av', rets ++ [r])
+                           | PFault => PFault | POutOfFuel => POutOfFuel end)).
+  { intros parsed prep. destruct parsed as [l| |]; try exact I.
+    pose proof (retained_usable no_skip av maxsz (prep l) Hp) as R.
+    pose proof (cap no_skip av maxsz (prep l)) as C.
+    destruct (insert_available no_skip av maxsz (prep l)) as [av' r]. cbn [fst] in *. split; [exact R|lia]. }
+  destruct op as [c4 c6|c4|c4 c6|c4 c6]; try apply K.
+  destruct c4; [split; assumption|apply K].
+Qed.
+
+Lemma pl_run_inv : forall maxsz ops, pl_inv maxsz (pl_run maxsz ops).
+Proof.
+  intros maxsz ops. unfold pl_run.
+  assert (G : forall st, pl_inv maxsz st -> pl_inv maxsz (fold_left (pl_step maxsz) ops st)).
+  { induction ops as [|op ops IH]; intros st H; [exact H|]. cbn [fold_left]. apply IH, pl_step_inv, H. }
+  apply G. cbn. split; [intros a []|lia].
+Qed.
+
+Lemma pl_never_faults : forall maxsz ops, pl_run maxsz ops <> PFault /\ pl_run maxsz ops <> POutOfFuel.
+Proof.
+  intros maxsz ops. unfold pl_run.
+  assert (G : forall st, (exists x, st = POk x) -> exists x, fold_left (pl_step maxsz) ops st = POk x).
+  { induction ops as [|op ops IH]; intros st H; [exact H|]. cbn [fold_left]. apply IH.
+    destruct H as [[av rets] ->]. cbn [pl_step].
+    assert (K : forall (l : list addr) (prep : list addr -> list addr), exists x, (let '(av', r) := insert_available no_skip av maxsz (prep l) in POk (av', rets ++ [r])) = POk x).
+    { intros l prep. destruct (insert_available no_skip av maxsz (prep l)). eexists. reflexivity. }
+    destruct op as [c4 c6|c4|c4 c6|c4 c6]; unfold parse_both; rewrite ?compact_exact, ?compact6_exact; try apply K.
+    destruct c4; [eexists; reflexivity|]. apply K. }
+  destruct (G (POk ([], []))) as [x Hx]; [eexists; reflexivity|]. rewrite Hx. split; discriminate.
+Qed.
+
+(* ------------------------------------------------------------------ HTTP *)
+
+Definition is_failure (e : tevent) : Prop :=
+  match e with EvFailure _ | EvScrapeFailure _ => True | _ => False end.
+
+Lemma http_failed_is_failure : forall ev m, is_failure (http_failed ev m).
+Proof. intros ev m. unfold http_failed. destruct (ev =? ev_scrape); exact I. Qed.
+
+Lemma http_failed_not_fault : forall ev m, http_failed ev m <> EvFault.
+Proof. intros ev m. unfold http_failed. destruct (ev =? ev_scrape); discriminate. Qed.
+
+Local Opaque http_failed m_no_peers m_root m_parse m_failure_pre m_failure_nostr m_warning_pre m_scrape_hash
+  m_scrape_files process_fields.
+
+(* a body that does not decode to a dictionary fails this request and leaves the tracker state alone *)
+Lemma http_malformed_fails : forall ih ev body ts,
+  (forall m fl rest, decode_stream body <> Ok (VMap m, fl) rest) ->
+  (decode_stream body <> Fault /\ decode_stream body <> OutOfFuel) ->
+  fst (http_receive_done ih ev body ts) = ts /\ is_failure (snd (http_receive_done ih ev body ts)).
+Proof.
+  intros ih ev body ts Hm [Hf Ho]. unfold http_receive_done.
+  destruct (decode_stream body) as [[v fl] rest| | |] eqn:E; try congruence.
+  - destruct v as [z|s|l|m]; try (cbn [fst snd]; split; [reflexivity|apply http_failed_is_failure]).
+    exfalso. eapply Hm. reflexivity.
+  - cbn [fst snd]. split; [reflexivity|apply http_failed_is_failure].
+Qed.
+
+Lemma process_success_no_fault : forall ev m ts, snd (process_success ev m ts) <> EvFault.
+Proof.
+  intros ev m ts. unfold process_success.
+  destruct (map_lookup k_peers m) as [[z|s|l|m']|]; rewrite ?compact_exact;
+    (destruct (key_string k_peers6 m) as [s6|]; [rewrite compact6_exact|]);
+    cbn -[http_failed];
+    repeat match goal with
+           | |- context [if ?c then _ else _] => destruct c
+           end; cbn [snd]; try discriminate; apply http_failed_not_fault.
+Qed.
+
+Lemma process_scrape_no_fault : forall ih m ts, snd (process_scrape ih m ts) <> EvFault.
+Proof.
+  intros ih m ts. unfold process_scrape.
+  destruct (map_lookup k_files m) as [[z|s|l|files]|]; cbn [snd]; try discriminate.
+  destruct (map_lookup ih files) as [[z|s|l|stats]|]; cbn [snd]; discriminate.
+Qed.
+
+(* only the bencode decoder (C07's obligation) could make the HTTP path read out of range *)
+Lemma http_fault_only_from_decoder : forall ih ev body ts,
+  snd (http_receive_done ih ev body ts) = EvFault -> decode_stream body = Fault \/ decode_stream body = OutOfFuel.
+Proof.
+  intros ih ev body ts. unfold http_receive_done.
+  destruct (decode_stream body) as [[v fl] rest| | |] eqn:E; auto.
+  - destruct v as [z|s|l|m]; try (cbn [snd]; intro H; exfalso; exact (http_failed_not_fault _ _ H)).
+    destruct (has_key k_failure_reason m).
+    + cbn [snd]. intro H; exfalso; exact (http_failed_not_fault _ _ H).
+    + match goal with |- context [match ?w with Some _ => _ | None => _ end] => destruct w end.
+      * cbn [snd]. intro H; exfalso; exact (http_failed_not_fault _ _ H).
+      * destruct (ev =? ev_scrape); intro H; exfalso.
+        -- exact (process_scrape_no_fault _ _ _ H).
+        -- exact (process_success_no_fault _ _ _ H).
+  - cbn [snd]. intro H; exfalso; exact (http_failed_not_fault _ _ H).
+Qed.
+
+(* ------------------------------------------------------------------ UDP *)
+
+Lemma rd_be_some : forall k buf pos acc, pos + N.of_nat k <= blen buf -> exists v, rd_be buf pos k acc = Some v.
+Proof.
+  induction k as [|k IH]; intros buf pos acc H; [eexists; reflexivity|].
+  cbn [rd_be]. unfold rd. destruct (nth_error buf (N.to_nat pos)) as [b|] eqn:E.
+  - apply IH. lia.
+  - apply nth_error_None in E. unfold blen in H. lia.
+Qed.
+
+Lemma reset_family_not_fault : forall u msg, snd (reset_family u msg) <> EvFault.
+Proof.
+  intros u msg. unfold reset_family. destruct (u_tx u =? 0); [discriminate|].
+  destruct (negb (u_other_tx u =? 0)); discriminate.
+Qed.
+
+(* a reply header is accepted iff the datagram has at least 8 bytes and carries the expected action
+   and the transaction id of this request *)
+Lemma udp_header : forall u action buf, action <> 3 ->
+  (fst (fst (process_header u action buf)) = HdrOk <->
+   hdr_size <= blen buf /\ rd_be buf 0 4 0 = Some action /\ rd_be buf 4 4 0 = Some (u_tx u)).
+Proof.
+  intros u action buf Ha. unfold process_header.
+  destruct (blen buf <? hdr_size) eqn:Hl.
+  - cbn [fst]. split; [discriminate|]. intros (H & _). lia.
+  - assert (H8 : 8 <= blen buf) by (unfold hdr_size, Params.udp_header_size in Hl; lia).
+    destruct (rd_be_some 4 buf 0 0) as [ra Hra]; [cbn; lia|].
+    destruct (rd_be_some 4 buf 4 0) as [tid Htid]; [cbn; lia|].
+    rewrite Hra, Htid.
+    destruct (N.eqb_spec tid (u_tx u)) as [->|Ht]; cbn [negb].
+    + destruct (N.eqb_spec ra 3) as [->|H3].
+      * destruct (reset_family u _) as [u' e]. cbn [fst]. split; [discriminate|]. intros (_ & H & _). congruence.
+      * destruct (N.eqb_spec ra action) as [->|Hra']; cbn [negb fst].
+        -- split; [intros _; repeat split; lia|reflexivity].
+        -- split; [discriminate|]. intros (_ & H & _). congruence.
+    + cbn [fst]. split; [discriminate|]. intros (_ & _ & H). congruence.
+Qed.
+
+Lemma process_header_not_fault : forall u action buf,
+  fst (fst (process_header u action buf)) <> HdrFault /\ snd (process_header u action buf) <> EvFault.
+Proof.
+  intros u action buf. unfold process_header.
+  destruct (blen buf <? hdr_size) eqn:Hl; [split; discriminate|].
+  assert (H8 : 8 <= blen buf) by (unfold hdr_size, Params.udp_header_size in Hl; lia).
+  destruct (rd_be_some 4 buf 0 0) as [ra Hra]; [cbn; lia|].
+  destruct (rd_be_some 4 buf 4 0) as [tid Htid]; [cbn; lia|].
+  rewrite Hra, Htid.
+  destruct (negb (tid =? u_tx u)); [split; discriminate|].
+  destruct (ra =? 3).
+  - pose proof (reset_family_not_fault u (msg_tracker ++ match skipn 8 buf with [] => msg_empty | _ :: _ => skipn 8 buf end)) as R.
+    destruct (reset_family u _) as [u' e]. cbn [fst snd] in *. split; [discriminate|exact R].
+  - destruct (negb (ra =? action)); split; discriminate.
+Qed.
+
+(* UdpRouter::event_read + process_*: a datagram has an effect (anything but drop / ignore) only if it comes
+   from the tracker's address, has at least 8 bytes and carries the id of a live connection *)
+Lemma udp_effect_needs_match : forall u from_ok dgram u' e,
+  router_read u from_ok dgram = (u', e) -> e <> EvDrop -> e <> EvFault ->
+  let buf := firstn (N.to_nat udp_buffer_size) dgram in
+  from_ok = true /\ hdr_size <= blen buf /\
+  exists id ph, u_routed u = Some (id, ph) /\ id <> 0 /\ rd_be buf 4 4 0 = Some id.
+Proof.
+  intros u from_ok dgram u' e H Hd Hf buf. unfold router_read in H. fold buf in H.
+  destruct (blen buf =? 0); [congruence|].
+  destruct (blen buf <? hdr_size) eqn:Hl.
+  - cbn [N.eqb] in H. congruence.
+  - destruct (rd_be buf 4 4 0) as [tid|] eqn:Ht; [|congruence].
+    destruct (N.eqb_spec tid 0) as [->|H0]; [congruence|].
+    destruct (u_routed u) as [[id ph]|]; [|congruence].
+    destruct (N.eqb_spec tid id) as [->|Hi]; cbn [negb] in H; [|congruence].
+    destruct from_ok; cbn [negb] in H; [|congruence].
+    repeat split; [lia|]. exists id, ph. repeat split; assumption.
+Qed.
+
+(* a failing reply touches only this request: the other family's request and the tracker's
+   interval / scrape state are unchanged *)
+Lemma reset_family_local : forall u msg, u_other_tx (fst (reset_family u msg)) = u_other_tx u /\
+  u_ts (fst (reset_family u msg)) = u_ts u /\ u_v6 (fst (reset_family u msg)) = u_v6 u.
+Proof.
+  intros u msg. unfold reset_family. destruct (u_tx u =? 0); [auto|].
+  destruct (negb (u_other_tx u =? 0)); cbn; auto.
+Qed.
+
+Lemma process_header_local : forall u action buf,
+  u_other_tx (snd (fst (process_header u action buf))) = u_other_tx u /\
+  u_ts (snd (fst (process_header u action buf))) = u_ts u /\
+  u_v6 (snd (fst (process_header u action buf))) = u_v6 u.
+Proof.
+  intros u action buf. unfold process_header.
+  destruct (blen buf <? hdr_size); [cbn; auto|].
+  destruct (rd_be buf 0 4 0) as [ra|]; [|cbn; auto].
+  destruct (rd_be buf 4 4 0) as [tid|]; [|cbn; auto].
+  destruct (negb (tid =? u_tx u)); [cbn; auto|].
+  destruct (ra =? 3).
+  - pose proof (reset_family_local u (msg_tracker ++ match skipn 8 buf with [] => msg_empty | _ :: _ => skipn 8 buf end)) as R.
+    destruct (reset_family u _) as [u' e]. cbn [fst snd] in *. exact R.
+  - destruct (negb (ra =? action)); cbn; auto.
+Qed.
+
+Definition is_udp_failure (e : tevent) : Prop :=
+  match e with EvFailure _ | EvFamilyReset => True | _ => False end.
+
+(* connect reply: never reads out of range; a malformed or error reply fails only this family's request *)
+Lemma process_connect_safe : forall u buf,
+  snd (process_connect u buf) <> EvFault /\
+  (is_udp_failure (snd (process_connect u buf)) ->
+   u_other_tx (snd (fst (process_connect u buf))) = u_other_tx u /\ u_ts (snd (fst (process_connect u buf))) = u_ts u).
+Proof.
+  intros u buf. unfold process_connect.
+  pose proof (process_header_not_fault u 0 buf) as [N1 N2].
+  pose proof (process_header_local u 0 buf) as (L1 & L2 & _).
+  destruct (process_header u 0 buf) as [[h u1] e1]. cbn [fst snd] in *.
+  destruct h; cbn [fst snd]; try (split; [assumption|auto]); try congruence.
+  destruct (blen buf <? connect_size) eqn:Hl.
+  - pose proof (reset_family_not_fault u1 (msg_parse ++ msg_connect_size)) as R.
+    pose proof (reset_family_local u1 (msg_parse ++ msg_connect_size)) as (R1 & R2 & _).
+    destruct (reset_family u1 _) as [u2 e2]. cbn [fst snd] in *. split; [exact R|]. intros _. split; congruence.
+  - assert (H16 : 16 <= blen buf) by (unfold connect_size, Params.udp_connect_size in Hl; lia).
+    destruct (rd_be_some 8 buf 8 0) as [c Hc]; [cbn; lia|]. rewrite Hc.
+    destruct (c =? 0).
+    + pose proof (reset_family_not_fault u1 (msg_parse ++ msg_conn_zero)) as R.
+      pose proof (reset_family_local u1 (msg_parse ++ msg_conn_zero)) as (R1 & R2 & _).
+      destruct (reset_family u1 _) as [u2 e2]. cbn [fst snd] in *. split; [exact R|]. intros _. split; congruence.
+    + cbn [fst snd]. split; [discriminate|]. intros [].
+Qed.
+
+Lemma reset_family_event : forall u msg,
+  match snd (reset_family u msg) with EvIgnore | EvFailure _ | EvFamilyReset => True | _ => False end.
+Proof.
+  intros u msg. unfold reset_family. destruct (u_tx u =? 0); [exact I|].
+  destruct (negb (u_other_tx u =? 0)); exact I.
+Qed.
+
+Lemma process_header_event : forall u action buf,
+  match snd (process_header u action buf) with EvIgnore | EvFailure _ | EvFamilyReset | EvFault => True | _ => False end.
+Proof.
+  intros u action buf. unfold process_header.
+  destruct (blen buf <? hdr_size); [exact I|].
+  destruct (rd_be buf 0 4 0) as [ra|]; [|exact I].
+  destruct (rd_be buf 4 4 0) as [tid|]; [|exact I].
+  destruct (negb (tid =? u_tx u)); [exact I|].
+  destruct (ra =? 3).
+  - pose proof (reset_family_event u (msg_tracker ++ match skipn 8 buf with [] => msg_empty | _ :: _ => skipn 8 buf end)) as R.
+    destruct (reset_family u _) as [u' e]. cbn [fst snd] in *. destruct e; try exact I; destruct R.
+  - destruct (negb (ra =? action)); exact I.
+Qed.
+
+(* announce reply: never reads out of range, and the peers reported are exactly the whole records after
+   the 20-byte header *)
+Lemma process_announce_safe : forall u buf,
+  snd (process_announce u buf) <> EvFault /\
+  (forall l, snd (process_announce u buf) = EvSuccess l \/ snd (process_announce u buf) = EvNewPeers l ->
+     l = spec_rec (S (length buf)) (u_v6 u) (skipn 20 buf)) /\
+  (is_udp_failure (snd (process_announce u buf)) ->
+   u_other_tx (snd (fst (process_announce u buf))) = u_other_tx u /\ u_ts (snd (fst (process_announce u buf))) = u_ts u).
+Proof.
+  intros u buf. unfold process_announce.
+  pose proof (process_header_not_fault u 1 buf) as [N1 N2].
+  pose proof (process_header_local u 1 buf) as (L1 & L2 & L3).
+  pose proof (process_header_event u 1 buf) as HE.
+  destruct (process_header u 1 buf) as [[h u1] e1]. cbn [fst snd] in *.
+  destruct h; cbn [fst snd]; try congruence.
+  - split; [assumption|]. split; [intros l [H|H]; subst e1; destruct HE|auto].
+  - split; [assumption|]. split; [intros l [H|H]; subst e1; destruct HE|auto].
+  - destruct (blen buf <? announce_size) eqn:Hl.
+    + pose proof (reset_family_not_fault u1 (msg_parse ++ msg_announce_size)) as R.
+      pose proof (reset_family_local u1 (msg_parse ++ msg_announce_size)) as (R1 & R2 & _).
+      pose proof (reset_family_event u1 (msg_parse ++ msg_announce_size)) as RE.
+      destruct (reset_family u1 _) as [u2 e2]. cbn [fst snd] in *. split; [exact R|].
+      split; [intros l [H|H]; subst e2; destruct RE|]. intros _. split; congruence.
+    + assert (H20 : 20 <= blen buf) by (unfold announce_size, Params.udp_announce_size in Hl; lia).
+      destruct (rd_be_some 4 buf 8 0) as [iv Hiv]; [cbn; lia|].
+      destruct (rd_be_some 4 buf 12 0) as [le Hle]; [cbn; lia|].
+      destruct (rd_be_some 4 buf 16 0) as [se Hse]; [cbn; lia|].
+      rewrite Hiv, Hle, Hse.
+      assert (Hlen : (20 <= length buf)%nat) by (unfold blen in H20; lia).
+      pose proof (copy_spec (S (length buf)) (u_v6 u1) (skipn 20 buf) (firstn 20 buf) []) as C.
+      rewrite firstn_skipn in C.
+      assert (Hpre : blen (firstn 20 buf) = 20) by (unfold blen; rewrite firstn_length_le by exact Hlen; reflexivity).
+      assert (Hrest : blen (skipn 20 buf) = blen buf - 20) by (unfold blen; rewrite skipn_length; lia).
+      rewrite Hpre, Hrest in C.
+      replace (20 + (blen buf - 20 - (blen buf - 20) mod N.of_nat (rsz_of (u_v6 u1))))
+        with (blen buf - (blen buf - 20) mod (if u_v6 u1 then compact6_record_size else compact_record_size)) in C
+        by (unfold compact6_record_size, compact_record_size; destruct (u_v6 u1); cbn [rsz_of]; lia).
+      rewrite C by (rewrite skipn_length; lia). cbn [rev app].
+      destruct (negb (u_other_tx u1 =? 0)); cbn [fst snd]; (split; [discriminate|]);
+        (split; [intros l [H|H]; inversion H; congruence|intros []]).
+Qed.
+
+Lemma router_never_faults : forall u from_ok dgram, snd (router_read u from_ok dgram) <> EvFault.
+Proof.
+  intros u from_ok dgram. unfold router_read.
+  remember (firstn (N.to_nat udp_buffer_size) dgram) as buf eqn:Hbuf. clear Hbuf.
+  destruct (blen buf =? 0); [discriminate|].
+  destruct (blen buf <? hdr_size) eqn:Hl.
+  - cbn [N.eqb]. discriminate.
+  - assert (H8 : 8 <= blen buf) by (unfold hdr_size, Params.udp_header_size in Hl; lia).
+    destruct (rd_be_some 4 buf 4 0) as [tid Ht]; [cbn; lia|]. rewrite Ht.
+    destruct (tid =? 0); [discriminate|].
+    destruct (u_routed u) as [[id ph]|]; [|discriminate].
+    destruct (negb (tid =? id)); [discriminate|].
+    destruct (negb from_ok); [discriminate|].
+    destruct ph.
+    + pose proof (process_connect_safe u buf) as [S _].
+      destruct (process_connect u buf) as [[k u1] e1]. cbn [fst snd] in *. destruct k; exact S.
+    + pose proof (process_announce_safe u buf) as [S _].
+      destruct (process_announce u buf) as [[k u1] e1]. cbn [fst snd] in *. destruct k; exact S.
+Qed.
